@@ -599,7 +599,7 @@ class C14(Prop):
                 E = rng.randint(1, 14)
                 base = len(qs)
                 qs += [["wcurvevec", ["cextrapolate", w, E]]] + [["cost", ["ccurve", ["cextrapolate", w, E]], n] for n in range(0, N + 1)] \
-                      + [["cost", ["cextrap", w], n] for n in range(0, N + 1)]
+                      + [["cost", ["cextrap", w], n] for n in range(0, N + 1)] + [["cost", ["ccurve", w], n] for n in range(0, N + 1)]
                 meta.append(("extrap", base, costs, k, N, E))
         for _ in range(ctx.scale(80, 1000)):
             q = families.q_chist(rng)[0]
@@ -641,9 +641,21 @@ class C14(Prop):
                 _, base, costs, k, N, E = m
                 ext = [rows[base + 1 + n][1] for n in range(N + 1)]
                 lazy = [rows[base + 1 + (N + 1) + n][1] for n in range(N + 1)]
+                orig = [rows[base + 1 + 2 * (N + 1) + n][1] for n in range(N + 1)]
                 vec = rows[base][1]
-                if any(x is None or x[0] != "n" for x in ext + lazy) or not vec or vec[0] != "l": continue
+                if any(x is None or x[0] != "n" for x in ext + lazy + orig) or not vec or vec[0] != "l": continue
                 horizon = len(vec[1])
+                for n in range(0, N + 1):
+                    if ext[n][1] > orig[n][1]:
+                        inside = n <= horizon
+                        ctx.oracle("extrapolation_never_raises", False,
+                                   "trace %s max_n=%d: extrapolate(%d) raises cost_of_jobs(%d) from %d to %d (%s the extrapolated vector of length %d)" %
+                                   (costs, k, E, n, orig[n][1], ext[n][1], "inside" if inside else "beyond", horizon),
+                                   [rows[base + 1 + n][0], rows[base + 1 + 2 * (N + 1) + n][0]],
+                                   cls="oracle:extrap_raises" if inside else "oracle:extrap_raises_beyond")
+                        break
+                else:
+                    ctx.oracle("extrapolation_never_raises", True, "", [])
                 for n in range(0, len(costs) + 1):
                     rm = run_maxima(costs, n)
                     ctx.oracle("extrapolation_dominates_trace", ext[n][1] >= rm and lazy[n][1] >= rm,
@@ -727,6 +739,10 @@ class C12(Prop):
             elif m[0] in ("conv", "pconv"):
                 base, ab, H = m[1], m[2], m[4]
                 vec, der, src = rows[base][1], rows[base + 1][1], rows[base + 2][1]
+                if m[0] == "conv" and vec and vec[0] == "l" and vec[1] and vec[1][-1] == 0 and der and der[0] in ("panic", "timeout"):
+                    ctx.oracle("derived_curve_is_usable", False, "the derived delta-min vector %s ends in 0: number_arrivals of the derived curve %s" % (list(vec[1]), der[0]),
+                               [rows[base][0], rows[base + 1][0]], cls="oracle:conv_zero_last")
+                    continue
                 if not vec or not der or not src or vec[0] != "l" or der[0] != "l" or src[0] != "l": continue
                 bad = [d for d in range(H + 1) if der[1][d] < src[1][d]]
                 ctx.oracle("derived_dominates_source", not bad, "derived curve is below its source at delta=%s: %s < %s" % (bad[:1], [der[1][d] for d in bad[:1]], [src[1][d] for d in bad[:1]]),
@@ -837,6 +853,8 @@ class C13(Prop):
                 ctx.oracle("history_independent", list(hv[1]) == exp, "answers under the query history %s differ from fresh answers %s" % (list(hv[1]), exp), [q], cls="oracle:cache_visible")
         finalize(ctx)
 KNOWN_PREDICATES["C13-beyond-horizon"] = lambda v: v.get("cls") == "oracle:raises_beyond_horizon"
+KNOWN_PREDICATES["C12-zero-last"] = lambda v: v.get("cls") == "oracle:conv_zero_last"
+KNOWN_PREDICATES["C14-beyond-extrapolated"] = lambda v: v.get("cls") == "oracle:extrap_raises_beyond"
 KNOWN_PREDICATES["C12-plateau-at-last"] = lambda v: v.get("cls") == "oracle:conv_inexact:plateau_at_last"
 
 # ============================================================================= exhaustive evaluators (python, from the implementation's own tables)
@@ -1020,3 +1038,579 @@ class C19(Prop):
             ctx.oracle("dedicated=periodic(Q=P)=constrained(Q=D=P)", a == b == c, "%s under dedicated / periodic(Q=P) / constrained(Q=D=P): %s / %s / %s" % (rows[base][0][0], rta.show(a), rta.show(b), rta.show(c)),
                        [rows[base][0], rows[base + 1][0], rows[base + 2][0]], cls="oracle:agree:supplies")
         finalize(ctx)
+
+# ============================================================================= schedule-level oracles (C01, C02, C03, C18)
+import sim
+
+def dense_arrivals(ab, rng, horizon, adversarial=True, shift=0):
+    es = events_for(ab, rng, horizon, adversarial)
+    if not es: return []
+    base = es[0] if adversarial else 0
+    return [e - base + shift for e in es if e - base + shift < horizon]
+
+def build_jobs(tasks, rng, horizon, adversarial, victim=None, short_costs=False):
+    """tasks: list of dicts ab, C, pps(cost)->set; returns job list"""
+    jobs = []
+    for ti, t in enumerate(tasks):
+        for a in dense_arrivals(t["ab"], rng, horizon, adversarial, t.get("shift", 0)):
+            c = t["C"] if not short_costs else rng.randint(1, t["C"])
+            jobs.append(dict(task=ti, arr=a, cost=c, pps=t["pps"](c)))
+    return jobs
+
+def worst_response(tasks, keyf, victim, rng, horizon, tries=3):
+    """max observed response time of the victim task's jobs over a few release patterns; tie-breaks
+    are adversarial for the victim (it loses every tie)"""
+    worst = 0; witness = None
+    for tr in range(tries):
+        adv = tr == 0
+        jobs = build_jobs(tasks, rng, horizon, adv, victim, short_costs=(tr == 2))
+        if not jobs: continue
+        key = keyf(jobs, victim)
+        done = sim.simulate(jobs, key, horizon + sum(j["cost"] for j in jobs) + 2)
+        for k, j in enumerate(jobs):
+            if j["task"] == victim and done[k] is not None and j["arr"] < horizon:
+                r = done[k] - j["arr"]
+                if r > worst: worst = r; witness = dict(jobs=[(x["task"], x["arr"], x["cost"]) for x in jobs][:60], job=k, response=r)
+    return worst, witness
+
+def fifo_key(jobs, victim):
+    return lambda k: (jobs[k]["arr"], 1 if jobs[k]["task"] == victim else 0, k)
+
+def tasks_from_rbs(rbs):
+    return [dict(ab=rb[1], C=rb[2][1], pps=sim.pps_full_preemptive) for rb in rbs]
+
+@register("C03")
+class C03(Prop):
+    rule = ("FIFO task sets (1-4 tasks, jittered/bursty/extrapolating/propagated curves, scalar costs); correspondence one-sided "
+            "(implementation at least as pessimistic as the model proved safe); oracle = an independent FIFO scheduler on synchronous "
+            "maximal-rate releases (each task in turn losing every tie), random compliant releases and shortened execution times; "
+            "non-trivial = distinct analysis query whose result is not Ok(0)")
+    proof_status = "full (fifo_rta_sound: end to end from the entry point to every legal schedule)"
+    def run(self, ctx):
+        rng = ctx.rng
+        qs = []
+        for _ in range(ctx.scale(260, 4000)):
+            qs += families.q_fifo(rng, ["periodic", "sporadic", "curve", "extrap", "propagated", "jitter", "sum"])
+        rows = ctx.run(qs)
+        ctx.correspond(rows, relation="one")
+        for (q, dv, rv, mv) in rows:
+            if not dv or dv[0] != "ok": ctx.dist("outcome", dv[0] if dv else "none"); continue
+            ctx.dist("outcome", "ok")
+            R = min(dv[1], rv[1]) if rv and rv[0] == "ok" else dv[1]
+            tasks = tasks_from_rbs(q[1][1])
+            H = min(400, 3 * q[2] + 20)
+            for victim in range(len(tasks)):
+                w, wit = worst_response(tasks, fifo_key, victim, rng, H, tries=2 if ctx.tier == "quick" else 4)
+                ctx.oracle("no_schedule_exceeds_the_bound", w <= R,
+                           "FIFO analysis returns Ok(%d) but a legal FIFO schedule has a job of task %d with response time %d" % (R, victim, w), [q],
+                           cls="oracle:unsafe", extra=dict(witness=wit))
+        finalize(ctx)
+
+# ============================================================================= C01 / C02 / C18
+def gen_fp_system(rng, abkinds, exact=False):
+    """tua, hp tasks, lp tasks (with segment lengths); returns dict"""
+    tua, hp = families.gen_ded_system(rng, abkinds)
+    nlp = rng.choice([0, 1, 1, 2])
+    lp = []
+    for _ in range(nlp):
+        ab = gen.gen_ab(rng, 0, ["periodic", "sporadic"], True)
+        Cl = rng.randint(1, 8)
+        lp.append(dict(ab=ab, C=Cl, seg=rng.choice([1, Cl, rng.randint(1, Cl)])))
+    return dict(tua=tua, hp=hp, lp=lp)
+
+def fp_variant_setup(variant, S, rng):
+    """returns (query, task list for the simulator [hp..., tua, lp...], victim index, shift for non-lp tasks)"""
+    tua, hp, lp = S["tua"], S["hp"], S["lp"]
+    C = tua[2][1]; ab = tua[1]
+    limit = families.pick_limit(rng)
+    tasks = []
+    for h in hp: tasks.append(dict(ab=h[1], C=h[2][1], pps=sim.pps_full_preemptive, shift=1))
+    vi = len(tasks)
+    if variant == "fp_fp":
+        B = 0; q = ["fp_fp", tua, hp, limit]
+        tasks.append(dict(ab=ab, C=C, pps=sim.pps_full_preemptive, shift=1))
+        for l in lp: tasks.append(dict(ab=l["ab"], C=l["C"], pps=sim.pps_full_preemptive, shift=0))
+    elif variant == "fp_np":
+        B = max([l["C"] for l in lp], default=1) - 1; q = ["fp_np", ab, C, B, hp, limit]
+        for t in tasks: t["pps"] = sim.pps_nonpreemptive
+        tasks.append(dict(ab=ab, C=C, pps=sim.pps_nonpreemptive, shift=1))
+        for l in lp: tasks.append(dict(ab=l["ab"], C=l["C"], pps=sim.pps_nonpreemptive, shift=0))
+    elif variant == "fp_lp":
+        B = max([l["seg"] for l in lp], default=1) - 1
+        last = rng.choice([1, C, rng.randint(1, C)]); q = ["fp_lp", ab, C, last, B, hp, limit]
+        pre = rng.choice([1, 2, C])
+        # fixed preemption points: a job of cost c <= C keeps the task's last segment (Prosa's model)
+        tasks.append(dict(ab=ab, C=C, pps=(lambda c, last=last, pre=pre: sim.pps_segments(c, pre, last)), shift=1))
+        for l in lp: tasks.append(dict(ab=l["ab"], C=l["C"], pps=(lambda c, s=l["seg"]: sim.pps_segments(c, s)), shift=0))
+    else:
+        B = max([l["seg"] for l in lp], default=1) - 1; q = ["fp_fnp", tua, B, hp, limit]
+        tasks.append(dict(ab=ab, C=C, pps=sim.pps_full_preemptive, shift=1))
+        for l in lp: tasks.append(dict(ab=l["ab"], C=l["C"], pps=(lambda c, s=l["seg"]: sim.pps_segments(c, s)), shift=0))
+    # only the lower-priority task that can block longest is released one slot early; the others later
+    if lp:
+        key = (lambda l: l["C"]) if variant == "fp_np" else (lambda l: min(l["seg"], l["C"]))
+        worst = max(range(len(lp)), key=lambda x: key(lp[x]))
+        for x in range(len(lp)):
+            if x != worst: tasks[vi + 1 + x]["shift"] = 2 + x
+    return q, tasks, vi
+
+def fp_key(jobs, victim):
+    return lambda k: (jobs[k]["task"], jobs[k]["arr"], k)      # task index order = priority order (hp..., tua, lp...)
+
+class _SchedProp(Prop):
+    variants = []
+    def setup(self, variant, rng): raise NotImplementedError
+    def run(self, ctx):
+        rng = ctx.rng
+        cases = []
+        for _ in range(ctx.scale(self.nquick, self.nthorough)):
+            v = rng.choice(self.variants)
+            cases.append((v,) + self.setup(v, rng))
+        rows = ctx.run([c[1] for c in cases])
+        ctx.correspond(rows, relation=self.relation)
+        for (v, q, tasks, vi, keyf), (_, dv, rv, mv) in zip(cases, rows):
+            ctx.dist("variant", v)
+            if not dv or dv[0] != "ok": ctx.dist("outcome", dv[0] if dv else "none"); continue
+            ctx.dist("outcome", "ok")
+            R = min(dv[1], rv[1]) if rv and rv[0] == "ok" else dv[1]
+            H = min(300, 3 * q[-1] + 20)
+            w, wit = worst_response(tasks, keyf, vi, rng, H, tries=2 if ctx.tier == "quick" else 4)
+            self.judge(ctx, v, q, R, w, wit)
+        finalize(ctx)
+
+@register("C01")
+class C01(_SchedProp):
+    rule = ("systems of higher-priority tasks, the task under analysis and lower-priority tasks (segment layouts), blocking bound = longest "
+            "lower-priority segment - 1; the four FP analyses; correspondence one-sided (at least as pessimistic as the model); oracle = "
+            "independent fixed-priority scheduler with the matching preemption model: lower-priority blockers released one slot early, "
+            "synchronous maximal-rate releases, random compliant releases, shortened execution times; non-trivial = distinct query "
+            "whose result is not Ok(0)")
+    proof_status = "see coverage.theorems"
+    variants = ["fp_fp", "fp_np", "fp_lp", "fp_fnp"]
+    relation = "one"; nquick = 320; nthorough = 4000
+    def setup(self, v, rng):
+        S = gen_fp_system(rng, ["periodic", "sporadic", "curve", "extrap", "propagated", "jitter"])
+        q, tasks, vi = fp_variant_setup(v, S, rng)
+        return q, tasks, vi, fp_key
+    def judge(self, ctx, v, q, R, w, wit):
+        ctx.oracle("no_schedule_exceeds_the_bound", w <= R, "%s returns Ok(%d) but a legal schedule has a job of the analysed task with response time %d" % (v, R, w),
+                   [q], cls="oracle:unsafe:" + v, extra=dict(witness=wit))
+
+def gen_edf_system(rng, abkinds):
+    tua, others = families.gen_ded_system(rng, abkinds)
+    dl = lambda: rng.choice([rng.randint(1, 20), rng.randint(10, 80), rng.randint(50, 200)])
+    D = dl(); same = rng.random() < 0.25
+    return dict(tua=tua, others=others, D=D, od=[D if same else dl() for _ in others])
+
+def edf_variant_setup(variant, S, rng):
+    tua, others, D, od = S["tua"], S["others"], S["D"], S["od"]
+    C = tua[2][1]; ab = tua[1]; limit = families.pick_limit(rng)
+    segs = [rng.choice([1, o[2][1], rng.randint(1, o[2][1])]) for o in others]
+    tasks = []; dls = []
+    vi = 0
+    if variant == "edf_fp":
+        q = ["edf_fp", [tua, D], [[o, d] for o, d in zip(others, od)], limit]
+        tasks.append(dict(ab=ab, C=C, pps=sim.pps_full_preemptive, shift=1)); dls.append(D)
+        for o, d in zip(others, od): tasks.append(dict(ab=o[1], C=o[2][1], pps=sim.pps_full_preemptive, shift=1)); dls.append(d)
+    elif variant == "edf_np":
+        q = ["edf_np", [ab, C, D], [[o[1], o[2][1], d] for o, d in zip(others, od)], limit]
+        tasks.append(dict(ab=ab, C=C, pps=sim.pps_nonpreemptive, shift=1)); dls.append(D)
+        for o, d in zip(others, od): tasks.append(dict(ab=o[1], C=o[2][1], pps=sim.pps_nonpreemptive, shift=rng.choice([0, 1]))); dls.append(d)
+    elif variant == "edf_lp":
+        last = rng.choice([1, C, rng.randint(1, C)])
+        q = ["edf_lp", [ab, C, D, last], [[o, d, s] for o, d, s in zip(others, od, segs)], limit]
+        pre = rng.choice([1, 2, C])
+        tasks.append(dict(ab=ab, C=C, pps=(lambda c, last=last, pre=pre: sim.pps_segments(c, pre, last)), shift=1)); dls.append(D)
+        for o, d, s in zip(others, od, segs): tasks.append(dict(ab=o[1], C=o[2][1], pps=(lambda c, s=s: sim.pps_segments(c, s)), shift=rng.choice([0, 1]))); dls.append(d)
+    else:
+        q = ["edf_fnp", [tua, D], [[o, d, s] for o, d, s in zip(others, od, segs)], limit]
+        tasks.append(dict(ab=ab, C=C, pps=sim.pps_full_preemptive, shift=1)); dls.append(D)
+        for o, d, s in zip(others, od, segs): tasks.append(dict(ab=o[1], C=o[2][1], pps=(lambda c, s=s: sim.pps_segments(c, s)), shift=rng.choice([0, 1]))); dls.append(d)
+    keyf = lambda jobs, victim, dls=dls: (lambda k: (jobs[k]["arr"] + dls[jobs[k]["task"]], 1 if jobs[k]["task"] == victim else 0, k))
+    return q, tasks, vi, keyf
+
+@register("C02")
+class C02(_SchedProp):
+    rule = ("EDF task sets with relative deadlines below/equal/above the periods, equal deadlines (adversarial tie-breaking: the analysed "
+            "task loses every tie), segment layouts; the four EDF analyses; correspondence one-sided; oracle = independent EDF scheduler "
+            "with the matching preemption model on synchronous maximal-rate, shifted and random compliant releases; non-trivial = distinct "
+            "query whose result is not Ok(0)")
+    proof_status = "see coverage.theorems"
+    variants = ["edf_fp", "edf_np", "edf_lp", "edf_fnp"]
+    relation = "one"; nquick = 320; nthorough = 4000
+    def setup(self, v, rng):
+        return edf_variant_setup(v, gen_edf_system(rng, ["periodic", "sporadic", "curve", "extrap", "propagated", "jitter"]), rng)
+    def judge(self, ctx, v, q, R, w, wit):
+        ctx.oracle("no_schedule_exceeds_the_bound", w <= R, "%s returns Ok(%d) but a legal EDF schedule has a job of the analysed task with response time %d" % (v, R, w),
+                   [q], cls="oracle:unsafe:" + v, extra=dict(witness=wit))
+
+@register("C18")
+class C18(Prop):
+    rule = ("task sets over exact realisable curves only (periodic, sporadic with jitter, extrapolating super-additive delta-min curves); "
+            "fully preemptive FP, fully non-preemptive FP (blocker of cost B+1 released one slot early) and FIFO; correspondence two-sided; "
+            "oracle = the synchronous maximal-rate schedule in the independent scheduler must ATTAIN the bound; non-trivial = distinct "
+            "query whose result is not Ok(0)")
+    proof_status = "see coverage.theorems"
+    def run(self, ctx):
+        rng = ctx.rng
+        cases = []
+        for _ in range(ctx.scale(260, 3500)):
+            v = rng.choice(["fp_fp", "fp_np", "fifo"])
+            if v == "fifo":
+                tua, others = families.gen_ded_system(rng, families.AB_EXACT)
+                ts = [tua] + others
+                q = ["fifo", ["agg", ts], families.pick_limit(rng)]
+                cases.append((v, q, tasks_from_rbs(ts), None, fifo_key))
+            else:
+                S = gen_fp_system(rng, families.AB_EXACT)
+                if v == "fp_np":
+                    for l in S["lp"]: l["ab"] = ["periodic", 100000]          # one blocking job only
+                q, tasks, vi = fp_variant_setup(v, S, rng)
+                cases.append((v, q, tasks, vi, fp_key))
+        rows = ctx.run([c[1] for c in cases])
+        ctx.correspond(rows)
+        for (v, q, tasks, vi, keyf), (_, dv, rv, mv) in zip(cases, rows):
+            ctx.dist("variant", v)
+            if not dv or dv[0] != "ok" or dv[1] == 0: ctx.dist("outcome", dv[0] if dv else "none"); continue
+            ctx.dist("outcome", "ok")
+            R = dv[1]
+            H = min(400, 3 * q[-1] + 20)
+            victims = range(len(tasks)) if vi is None else [vi]
+            best = 0; wit = None
+            for victim in victims:
+                jobs = build_jobs(tasks, rng, H, True, victim)
+                done = sim.simulate(jobs, keyf(jobs, victim), H + sum(j["cost"] for j in jobs) + 2)
+                for k, j in enumerate(jobs):
+                    if j["task"] == victim and done[k] is not None and done[k] - j["arr"] > best and j["arr"] < H:
+                        best = done[k] - j["arr"]; wit = dict(job=(j["task"], j["arr"], j["cost"]), response=best)
+            ctx.oracle("bound_is_attained", best == R, "%s returns Ok(%d) but the worst response time in the synchronous maximal-rate schedule is %d (%s)" %
+                       (v, R, best, "UNSAFE" if best > R else "not tight"), [q], cls=("oracle:unsafe:" if best > R else "oracle:not_tight:") + v, extra=dict(witness=wit))
+        finalize(ctx)
+
+# ============================================================================= C17
+def rle(a, b):
+    """a is at most as pessimistic as b"""
+    if a is None or b is None: return True
+    if a[0] == "ok": return (b[0] == "ok" and a[1] <= b[1]) or b[0] == "err"
+    if a[0] == "err": return b[0] == "err"
+    return True
+
+def harden_ab(ab, rng):
+    """a single-parameter hardening of an arrival bound: more jitter or a shorter period"""
+    k = ab[0]
+    if k == "periodic":
+        return (["periodic", max(1, ab[1] - rng.randint(1, 3))], "period-") if rng.random() < 0.5 else (["sporadic", ab[1], rng.randint(1, 10)], "jitter+")
+    if k == "sporadic":
+        return (["sporadic", max(1, ab[1] - rng.randint(1, 3)), ab[2]], "period-") if rng.random() < 0.5 else (["sporadic", ab[1], ab[2] + rng.randint(1, 10)], "jitter+")
+    return (["jitter", rng.randint(1, 10), ab], "jitter+")
+
+def harden_rb(rb, rng):
+    ab, cm = rb[1], rb[2]
+    if rng.random() < 0.4: return ["rbf", ab, ["scalar", cm[1] + rng.randint(1, 3)]], "wcet+"
+    ab2, how = harden_ab(ab, rng)
+    return ["rbf", ab2, cm], how
+
+def harden_query(q, rng):
+    """returns (hardened query, what) — exactly one parameter made harder"""
+    import copy
+    h = copy.deepcopy(q); k = q[0]
+    extra = lambda: ["rbf", gen.gen_sporadic(rng), ["scalar", rng.randint(1, 4)]]
+    r = rng.random()
+    if k in ("fp_fp", "fp_fnp", "fp_np", "fp_lp"):
+        hpi = {"fp_fp": 2, "fp_fnp": 3, "fp_np": 4, "fp_lp": 5}[k]
+        if r < 0.2: h[-1] = q[-1] + rng.randint(1, 200); return h, "limit+"
+        if r < 0.4 and k != "fp_fp":
+            bi = {"fp_fnp": 2, "fp_np": 3, "fp_lp": 4}[k]; h[bi] += rng.randint(1, 4); return h, "blocking+"
+        if r < 0.55: h[hpi] = q[hpi] + [extra()]; return h, "add_task"
+        if r < 0.8 and q[hpi]:
+            i = rng.randrange(len(q[hpi])); h[hpi][i], how = harden_rb(q[hpi][i], rng); return h, "hp:" + how
+        if k in ("fp_fp", "fp_fnp"): h[1], how = harden_rb(q[1], rng); return h, "tua:" + how
+        if rng.random() < 0.5 and k == "fp_np": h[2] += rng.randint(1, 3); return h, "tua:wcet+"
+        h[1], how = harden_ab(q[1], rng); return h, "tua:" + how
+    if k.startswith("edf_"):
+        if r < 0.2: h[-1] = q[-1] + rng.randint(1, 200); return h, "limit+"
+        if r < 0.4:
+            o = [gen.gen_sporadic(rng), rng.randint(1, 4), rng.randint(1, 100)]
+            if k == "edf_np": h[2] = q[2] + [o]
+            elif k == "edf_fp": h[2] = q[2] + [[["rbf", o[0], ["scalar", o[1]]], o[2]]]
+            else: h[2] = q[2] + [[["rbf", o[0], ["scalar", o[1]]], o[2], rng.randint(1, o[1])]]
+            return h, "add_task"
+        if r < 0.75 and q[2]:
+            i = rng.randrange(len(q[2]))
+            if k == "edf_np":
+                if rng.random() < 0.5: h[2][i][1] += rng.randint(1, 3); return h, "other:wcet+"
+                h[2][i][0], how = harden_ab(q[2][i][0], rng); return h, "other:" + how
+            if k in ("edf_lp", "edf_fnp") and rng.random() < 0.3: h[2][i][2] += rng.randint(1, 4); return h, "other:segment+"
+            h[2][i][0], how = harden_rb(q[2][i][0], rng); return h, "other:" + how
+        if k in ("edf_fp", "edf_fnp"): h[1][0], how = harden_rb(q[1][0], rng); return h, "tua:" + how
+        if rng.random() < 0.5 and k == "edf_np": h[1][1] += rng.randint(1, 3); return h, "tua:wcet+"
+        h[1][0], how = harden_ab(q[1][0], rng); return h, "tua:" + how
+    if k == "fifo":
+        if r < 0.25: h[-1] = q[-1] + rng.randint(1, 200); return h, "limit+"
+        if r < 0.5: h[1] = ["agg", q[1][1] + [extra()]]; return h, "add_task"
+        i = rng.randrange(len(q[1][1])); h[1][1][i], how = harden_rb(q[1][1][i], rng); return h, how
+    # ROS 2
+    def weaker(sb):
+        if sb[0] == "dedicated": P = rng.randint(2, 10); return ["periodic_s", P - 1, P]
+        if sb[0] == "periodic_s": return ["periodic_s", sb[1] - 1, sb[2]] if sb[1] > 1 else ["periodic_s", sb[1], sb[2] + 1]
+        if sb[0] == "constrained_s": return ["constrained_s", sb[1] - 1, sb[2], sb[3]] if sb[1] > 1 else ["constrained_s", sb[1], sb[2], sb[3] + 1]
+        return sb
+    if r < 0.2: h[-1] = q[-1] + rng.randint(1, 300); return h, "limit+"
+    if r < 0.5: h[1] = weaker(q[1]); return h, "supply-"
+    if k == "es":
+        if r < 0.75: h[2] = ["agg", q[2][1] + [extra()]]; return h, "add_callback"
+        i = rng.randrange(len(q[2][1])); h[2][1][i], how = harden_rb(q[2][1][i], rng); return h, how
+    if k in ("timer", "pp"):
+        if k == "timer" and r < 0.6: h[4] += rng.randint(1, 4); return h, "blocking+"
+        if r < 0.8: h[3] = ["agg", q[3][1] + [extra()]]; return h, "add_callback"
+        if q[3][1]:
+            i = rng.randrange(len(q[3][1])); h[3][1][i], how = harden_rb(q[3][1][i], rng); return h, "intf:" + how
+        h[3] = ["agg", [extra()]]; return h, "add_callback"
+    if k == "chain":
+        h[5] = ["agg", q[5][1] + [extra()]]; return h, "add_callback"
+    if k in ("rr", "bw"):
+        wl = h[2]; eoc = q[3][-1]
+        cand = [i for i in range(len(wl)) if i != eoc]
+        if r < 0.7 or not cand:
+            wl.append([rng.randint(1, 20), gen.gen_sporadic(rng), ["scalar", rng.randint(1, 4)], families.gen_kind(rng)]); return h, "add_callback"
+        i = rng.choice(cand)
+        if rng.random() < 0.5 and wl[i][2][0] == "scalar": wl[i][2] = ["scalar", wl[i][2][1] + rng.randint(1, 3)]; return h, "other:wcet+"
+        wl[i][0] += rng.randint(1, 10); return h, "other:assumed_bound+"
+    return h, "none"
+
+@register("C17")
+class C17(Prop):
+    rule = ("pairs (base system, one single-parameter hardening: WCET+, jitter+, period-, blocking+, segment+, added task/callback, weaker "
+            "supply, assumed bound+, limit+) for the nine dedicated-processor analyses and the ROS 2 analyses with scalar costs; relation "
+            "on the implementation's two results (never smaller, never Err->Ok; limit+ keeps Ok unchanged); non-trivial = distinct query "
+            "whose result is not Ok(0)")
+    proof_status = "see coverage.theorems"
+    def run(self, ctx):
+        rng = ctx.rng
+        qs = []; meta = []
+        n = ctx.scale(330, 5000)
+        while len(meta) < n:
+            r = rng.random()
+            if r < 0.6: base = gen_ded_queries(rng, 1, ["periodic", "sporadic", "curve", "extrap", "propagated", "jitter"])[0]
+            elif r < 0.8: base = families.q_ecrts(rng, None, True)[0]
+            else: base = families.q_rtss(rng, None, True)[0]
+            hard, how = harden_query(base, rng)
+            if how == "none": continue
+            qs += [base, hard]; meta.append(how)
+        rows = ctx.run(qs)
+        ctx.correspond(rows)
+        for i, how in enumerate(meta):
+            a, b = rows[2 * i], rows[2 * i + 1]
+            ctx.dist("hardening", how); ctx.dist("analysis", a[0][0])
+            for name, x, y in (("debug", a[1], b[1]), ("release", a[2], b[2])):
+                if x is None or y is None or x[0] == "panic" or y[0] == "panic": continue
+                if how == "limit+":
+                    ok = (x[0] != "ok") or (y == x)
+                    ctx.oracle("ok_is_limit_independent", ok, "%s: raising the limit changes %s to %s" % (a[0][0], rta.show(x), rta.show(y)), [a[0], b[0]], cls="oracle:limit:" + a[0][0])
+                else:
+                    ctx.oracle("harder_is_never_more_optimistic", rle(x, y), "%s (%s build): hardening '%s' turns %s into %s" % (a[0][0], name, how, rta.show(x), rta.show(y)),
+                               [a[0], b[0]], cls="oracle:monotone:" + a[0][0] + ":" + how.split(":")[-1])
+        finalize(ctx)
+
+# ============================================================================= C20
+def query_has_prefix(q):
+    s = sx(q)
+    return "(prefix " in s or "(of_prefix" in s or "(prefix_from" in s
+
+@register("C20")
+class C20(Prop):
+    rule = ("every public entry point (arrival/cost/demand/supply queries, fixed-point search, nine dedicated analyses, six ROS 2 analyses) on "
+            "well-formed generated inputs, in a checked build (debug assertions + overflow checks) and in an optimised release build; outcome "
+            "(value / panic / hang) must be a value, identical in both profiles and equal to the model; non-trivial = distinct query whose "
+            "result is not 0/empty")
+    proof_status = "see coverage.theorems"
+    def run(self, ctx):
+        rng = ctx.rng
+        qs = []
+        n = ctx.scale(60, 900)
+        for _ in range(n):
+            qs += families.q_arrival(rng, ["periodic", "sporadic", "never", "curve", "extrap", "propagated", "jitter", "sum", "sum2"], True, False)
+            qs += families.q_cost(rng) + families.q_demand(rng) + families.q_supply(rng) + families.q_search(rng)[:1]
+            qs += families.q_hist(rng) + families.q_chist(rng)
+        for _ in range(ctx.scale(220, 3000)):
+            qs += families.q_ded(rng)
+        for _ in range(ctx.scale(200, 3000)):
+            qs += families.q_ros(rng)
+        # witnesses of the known finding (ArrivalCurvePrefix inside an analysis)
+        pf = ["prefix", ["steps", 10, [[1, 1], [5, 2]]]]
+        wit = [["fifo", ["agg", [["rbf", pf, ["scalar", 2]]]], 100],
+               ["fp_fp", ["rbf", pf, ["scalar", 2]], [], 100],
+               ["edf_fp", [["rbf", ["sporadic", 10, 0], ["scalar", 2]], 10], [[["rbf", pf, ["scalar", 1]], 12]], 100],
+               ["es", ["dedicated"], ["agg", [["rbf", pf, ["scalar", 2]]]], 100]]
+        qs += wit
+        rows = ctx.run(qs)
+        ctx.correspond(rows)
+        for (q, dv, rv, mv) in rows:
+            cls = "oracle:profile"
+            if query_has_prefix(q) and q[0] in ("fifo", "fp_fp", "fp_np", "fp_lp", "fp_fnp", "edf_fp", "edf_np", "edf_lp", "edf_fnp", "es", "timer", "pp", "chain", "rr", "bw", "stepoff"):
+                cls = "oracle:profile:prefix_in_analysis"
+            ctx.dist("entry_point", q[0])
+            good = dv is not None and rv is not None and dv[0] not in ("panic", "timeout", "crash", "bad") and rv[0] not in ("panic", "timeout", "crash", "bad") and dv == rv
+            ctx.oracle("total_and_profile_independent", good,
+                       "%s: checked build -> %s, release build -> %s" % (q[0], rta.show(dv)[:80], rta.show(rv)[:80]), [q], cls=cls)
+        finalize(ctx)
+KNOWN_PREDICATES["C20-prefix-zero-step"] = lambda v: v.get("cls") == "oracle:profile:prefix_in_analysis" or (v["kind"] == "corr" and v.get("queries") and query_has_prefix(v["queries"][0]))
+
+# ============================================================================= C07 (python exhaustive evaluators for the ROS 2 analyses, scalar costs)
+def least_sol(sbf, limit, off, w):
+    if limit == 0: return None
+    for r in range(0, limit + 1):
+        if w(max(r, 1)) <= sbf(off + r): return r
+    return None
+
+def inv_scan(sbf, d, bound=200000):
+    t = 0
+    while sbf(t) < d and t < bound: t += 1
+    return t
+
+def exh_ecrts(sbf, limit, bw_rhs, rhs, offsets=None, inclusive=True):
+    mb = least_sol(sbf, limit, 0, bw_rhs)
+    if mb is None: return ("err", 0, limit)
+    best = 0
+    rng_ = range(0, mb + 1) if offsets is None else [A for A in offsets if A <= mb]
+    for A in rng_:
+        r = least_sol(sbf, limit, A, lambda x: rhs(A, x))
+        if r is None: return ("err", A, limit)
+        best = max(best, r)
+    return ("ok", best)
+
+def rb_leaf_tables(rb):
+    """flatten an rb of scalar-cost rbfs into [(ab, C)]"""
+    if rb[0] == "rbf": return [(rb[1], rb[2][1])]
+    if rb[0] == "boxed": return rb_leaf_tables(rb[1])
+    out = []
+    for x in rb[1]: out += rb_leaf_tables(x)
+    return out
+
+class TabPool:
+    """collects natab/sbftab queries and resolves them after one batch run"""
+    def __init__(self): self.qs = []; self.idx = {}
+    def need(self, q):
+        k = sx(q)
+        if k not in self.idx: self.idx[k] = len(self.qs); self.qs.append(q)
+        return k
+    def resolve(self, rows):
+        self.res = {sx(q): dv for (q, dv, rv, mv) in rows}
+    def tab(self, k):
+        v = self.res.get(k)
+        return list(v[1]) if v and v[0] == "l" else None
+
+def capped(selfk, intk, arrived, base):
+    if selfk in ("timer", "es"): return arrived
+    if selfk == "pu": return min(arrived, base + 1)
+    if isinstance(intk, list): return min(arrived, base + (1 if selfk[1] < intk[1] else 0))
+    return min(arrived, base + 1)
+
+@register("C07")
+class C07(Prop):
+    rule = ("ROS 2 workloads with scalar costs under dedicated/periodic/constrained supplies: event source, timer, polling-point callback, "
+            "processing chain (ECRTS'19), rr and bw subchain analyses (all four callback kinds, known/unknown priorities, singleton and longer "
+            "subchains); oracle = naive evaluation over EVERY offset with linear-scan fixed points and the implementation's provided_service "
+            "table only; non-trivial = distinct query whose result is not Ok(0)")
+    proof_status = "see coverage.theorems"
+    def run(self, ctx):
+        rng = ctx.rng
+        queries = []
+        for _ in range(ctx.scale(150, 2500)): queries += families.q_ecrts(rng, None, True)
+        for _ in range(ctx.scale(150, 2500)): queries += families.q_rtss(rng, None, True)
+        # witness of the known finding C07-ecrts19-pruning
+        queries.append(["pp", ["dedicated"], ["rbf", ["sporadic", 19, 0], ["scalar", 1]], ["agg", [["rbf", ["curve", ["dmin", [5, 8, 17, 24]]], ["scalar", 4]]]], 100])
+        pool = TabPool(); need = []
+        for q in queries:
+            limit = q[-1]; H = 2 * limit + 80
+            sbk = pool.need(["sbftab", q[1], H + 200])
+            if q[0] in ("rr", "bw"):
+                maxR = max(c[0] for c in q[2])
+                ks = [pool.need(["natab", c[1], H + maxR + 2]) for c in q[2]]
+                need.append((sbk, ks))
+            else:
+                rbs = [q[2]] if q[0] == "es" else [q[2], q[3]] if q[0] in ("timer", "pp") else [q[2], q[3], q[4], q[5]]
+                ks = [[(pool.need(["natab", ab, H + 2]), C) for ab, C in rb_leaf_tables(rb)] for rb in rbs]
+                need.append((sbk, ks))
+        rows = ctx.run(queries)
+        trows = ctx.run(pool.qs, model=False, release=False)
+        pool.resolve(trows)
+        ctx.correspond(rows)
+        for q, (sbk, ks), (_, dv, rv, mv) in zip(queries, need, rows):
+            st = pool.tab(sbk)
+            if st is None or dv is None: continue
+            sbf = lambda d, st=st: st[d] if d < len(st) else st[-1]
+            limit = q[-1]
+            ctx.dist("analysis", q[0]); ctx.dist("supply", q[1][0])
+            cls = "oracle:exhaustive:" + q[0]
+            if q[0] in ("es", "timer", "pp", "chain"):
+                fns = []
+                ok = True
+                for leafs in ks:
+                    tabs = [(pool.tab(k), C) for k, C in leafs]
+                    if any(t is None for t, _ in tabs): ok = False; break
+                    fns.append((lambda d, tabs=tabs: sum(C * (t[d] if d < len(t) else t[-1]) for t, C in tabs),
+                                lambda d, tabs=tabs: min([C for t, C in tabs if (t[d] if d < len(t) else t[-1]) > 0], default=0)))
+                if not ok: continue
+                if q[0] == "es":
+                    dem = fns[0][0]
+                    exp = exh_ecrts(sbf, limit, dem, lambda A, x: dem(A + 1))
+                    steps = None
+                else:
+                    if q[0] == "timer":
+                        own, ownlw = fns[0]; intf = fns[1][0]; B = q[4]
+                        bw = lambda d: own(d) + B + intf(d)
+                        ii = lambda A, x: (A + x - ownlw(A + x) + 1) if x > ownlw(A + x) else A + 1
+                        rhs = lambda A, x: own(A + 1) + intf(ii(A, x)) + B
+                        dem = own
+                    elif q[0] == "pp":
+                        own, ownlw = fns[0]; intf = fns[1][0]
+                        bw = lambda d: own(d) + intf(d)
+                        ii = lambda A, x: (A + x - ownlw(A + x) + 1) if x > ownlw(A + x) else A + 1
+                        rhs = lambda A, x: own(A + 1) + intf(ii(A, x))
+                        dem = own
+                    else:
+                        lastcb, lastlw = fns[0]; prefix = fns[1][0]; full = fns[2][0]; other = fns[3][0]
+                        bw = lambda d: full(d) + other(d)
+                        ii = lambda A, x: (A + x - lastlw(A + x) + 1) if x > lastlw(A + x) else A + 1
+                        rhs = lambda A, x: lastcb(A + 1) + prefix(ii(A, x)) + other(ii(A, x))
+                        dem = full
+                    exp = exh_ecrts(sbf, limit, bw, rhs)
+                    mb = least_sol(sbf, limit, 0, bw)
+                    so = [A for A in range(0, (mb or 0) + 1) if dem(A) < dem(A + 1)]
+                    exp_steps = exh_ecrts(sbf, limit, bw, rhs, offsets=so)
+                    if dv == exp_steps and dv != exp: cls = "oracle:exhaustive:ecrts19_pruning"
+                    elif dv != exp_steps: cls = "oracle:exhaustive:" + q[0] + ":differs_from_step_offset_maximum"
+            else:
+                wl = q[2]; sc = q[3]; eoc = sc[-1]
+                tabs = [pool.tab(k) for k in ks]
+                if any(t is None for t in tabs): continue
+                na = [(lambda d, t=t: t[d] if d < len(t) else t[-1]) for t in tabs]
+                C = [c[2][1] for c in wl]; R = [c[0] for c in wl]; kind = [c[3] for c in wl]
+                mpp = sum(na[i](R[i]) for i in sc)
+                cost = lambda i, n: C[i] * n
+                if q[0] == "rr":
+                    selfn = lambda s: max(0, na[eoc](max(0, s + R[eoc] - 1)) - 1)
+                    rhs = lambda s: 1 + sum(cost(i, capped(kind[i], kind[eoc], na[i](max(0, s + R[i] - 1)), mpp)) for i in range(len(wl)) if i != eoc) + cost(eoc, selfn(s))
+                    S = least_sol(sbf, limit, 0, rhs)
+                    if S is None: exp = ("err", 0, limit)
+                    else: exp = ("ok", inv_scan(sbf, max(0, sbf(S) - 1) + C[eoc]))
+                else:
+                    bwi = lambda d, act: sum(cost(i, capped(kind[i], kind[eoc], na[i](d), na[i](act) + mpp)) for i in range(len(wl)) if i != eoc)
+                    selfn = lambda act: max(0, na[eoc](act + 1) - 1)
+                    m = least_sol(sbf, limit, 0, lambda ta: 1 + bwi(ta, ta) + cost(eoc, na[eoc](ta)))
+                    if m is None: exp = ("err", 0, limit)
+                    else:
+                        best = 0; exp = None
+                        for ta in range(0, m):
+                            S = least_sol(sbf, limit, 0, lambda s: 1 + bwi(s, ta) + cost(eoc, selfn(ta)))
+                            if S is None: exp = ("err", 0, limit); break
+                            F = inv_scan(sbf, max(0, sbf(S) - 1) + C[eoc])
+                            best = max(best, max(0, F - ta) if len(sc) == 1 else F)
+                        if exp is None: exp = ("ok", best)
+            ctx.dist("outcome", exp[0])
+            for name, iv in (("debug", dv), ("release", rv)):
+                ctx.oracle("equals_exhaustive_evaluation", iv == exp, "%s (%s build) returns %s but exhaustive evaluation over every offset gives %s" % (q[0], name, rta.show(iv), rta.show(exp)),
+                           [q], cls=cls)
+        finalize(ctx)
+KNOWN_PREDICATES["C07-ecrts19-pruning"] = lambda v: v.get("cls") == "oracle:exhaustive:ecrts19_pruning"
